@@ -419,6 +419,7 @@ type World struct {
 	byEntity map[string]*SPNode
 	appToEnt map[string]string
 
+	userVals   [][][]string // user → custom attribute → values as held by the storage
 	respKeyVer int
 	// respKeyTorn: a half-finished rotation of the response signing key record — the storage already holds the next version's
 	// certificate next to the current version's private key (mutation tearKey; the next rotateKey, or heal, completes it)
@@ -556,6 +557,15 @@ func newWorld(t *testing.T, plan *Plan) *World {
 		}
 	}
 	w.cfg.Users = users
+	// the storage's own copy of the multi-valued attributes (flavour OwnSlices hands these very slices to the library; the
+	// oracles always compare with the registered values in cfg.Users)
+	for i := range users {
+		var vs [][]string
+		for _, c := range users[i].Custom {
+			vs = append(vs, append([]string(nil), c.Values...))
+		}
+		w.userVals = append(w.userVals, vs)
+	}
 	var seed [32]byte
 	for i := 0; i < 8; i++ {
 		seed[i] = byte(w.cfg.UUIDKey >> (8 * i))
@@ -1769,6 +1779,9 @@ func (s *simStorage) CreateAuthRequest(ctx context.Context, req *samlp.AuthnRequ
 	defer s.leave(t, rec)
 	if isErrFault(fault) {
 		rec.Err = injectedErr(fault).Error()
+		if s.w.cfg.TypedNil {
+			return s.typedNil(), injectedErr(fault)
+		}
 		return nil, injectedErr(fault)
 	}
 	if sc := shadowFrom(ctx); sc != nil {
@@ -1805,11 +1818,23 @@ func (s *simStorage) CreateAuthRequest(ctx context.Context, req *samlp.AuthnRequ
 	return &AuthReqSnap{s: snap}, nil
 }
 
+// typedNil: storage flavour — the error comes with a nil pointer of the record type inside the interface value, as in
+//	var r *record; if err := row.Scan(...); err != nil { return r, err }
+// The interface value is then not nil although nothing can be read from it.
+func (s *simStorage) typedNil() models.AuthRequestInt {
+	s.w.probe("storage_error_with_typed_nil_record")
+	var r *AuthReqSnap
+	return r
+}
+
 func (s *simStorage) AuthRequestByID(ctx context.Context, id string) (models.AuthRequestInt, error) {
 	t, rec, fault := s.enter(ctx, "AuthRequestByID", id)
 	defer s.leave(t, rec)
 	if isErrFault(fault) {
 		rec.Err = injectedErr(fault).Error()
+		if s.w.cfg.TypedNil {
+			return s.typedNil(), injectedErr(fault)
+		}
 		return nil, injectedErr(fault)
 	}
 	s.w.mu.Lock()
@@ -1826,6 +1851,9 @@ func (s *simStorage) AuthRequestByID(ctx context.Context, id string) (models.Aut
 	s.w.mu.Unlock()
 	if found == nil {
 		rec.Err = "not found"
+		if s.w.cfg.TypedNil {
+			return s.typedNil(), fmt.Errorf("sim: auth request not found")
+		}
 		return nil, fmt.Errorf("sim: auth request not found")
 	}
 	rec.Snap = &snap
@@ -1852,8 +1880,17 @@ func (w *World) setUser(u *UserCfg, set models.AttributeSetter) {
 	if u.Username != "" {
 		set.SetUsername(u.Username)
 	}
-	for _, c := range u.Custom {
-		set.SetCustomAttribute(c.Name, c.Friendly, c.Format, append([]string(nil), c.Values...))
+	for k, c := range u.Custom {
+		vals := append([]string(nil), c.Values...)
+		if w.cfg.OwnSlices {
+			for i := range w.cfg.Users {
+				if &w.cfg.Users[i] == u && i < len(w.userVals) && k < len(w.userVals[i]) {
+					vals = w.userVals[i][k]
+					w.probe("storage_passed_its_own_value_slice")
+				}
+			}
+		}
+		set.SetCustomAttribute(c.Name, c.Friendly, c.Format, vals)
 	}
 }
 
